@@ -57,6 +57,11 @@ pub trait Env: Send + Sync + 'static {
     fn actor_turn(&self, snapshot: &dyn Fn() -> ActorSnapshot) -> bool;
     /// Called when the actor thread leaves `actor::run`, for whatever reason.
     fn actor_exit(&self, panicking: bool);
+    /// Asked at the top of every granted iteration: `Some(t)` fast-forwards the socket's
+    /// transaction-id counter to `t` (a node that has been running for a long time).
+    fn next_tid_override(&self) -> Option<u32> {
+        None
+    }
 }
 
 static ENV: OnceLock<Box<dyn Env>> = OnceLock::new();
@@ -256,6 +261,12 @@ impl Drop for ActorGuard {
 
 pub fn actor_turn(actor: &Actor) -> bool {
     env().actor_turn(&|| actor.verif_snapshot())
+}
+
+pub fn actor_prepare(actor: &mut Actor) {
+    if let Some(tid) = env().next_tid_override() {
+        actor.verif_set_next_tid(tid);
+    }
 }
 
 // === Wire codec access ===
